@@ -31,7 +31,7 @@ var famOdd = []string{"a b/c d", "p+q", "x(1)", "é/ü", "a.b/c", "my file.txt",
 var famExt = []string{"src/a", "src/b", "src.c", "src-old", "src0", "src_x", "src2/c", "srcs", "src/sub/d", "src/sub.e"}
 var famIgn = []string{"f", "build/o", "sub/build/o", "rebuild/o", "a.exe", "a.exe.txt", "x.goit/f", "sub/.goit/f", ".goitx", "b.exe/z", "sub/c.exe"}
 var defaultBranches = []string{"main", "a", "ab", "b", "a-b", "a.b", "Z", "dev", "x_1"}
-var defaultMsgs = []string{"quote\nparent @ANC1@\ntree @TREE@", "revert\n\nparent @HEAD@", "first", "fix: thing", "a\tb", "two\nlines here now", "subject\n\nbody: with colon\nmore words in line", " padded ", "héllo wörld", "x: y: z", "m", "line one\nline two"}
+var defaultMsgs = []string{"raise coverage from 80% to 100%d of %s", "quote\nparent @ANC1@\ntree @TREE@", "revert\n\nparent @HEAD@", "first", "fix: thing", "a\tb", "two\nlines here now", "subject\n\nbody: with colon\nmore words in line", " padded ", "héllo wörld", "x: y: z", "m", "line one\nline two"}
 
 func weightsDefault() map[string]int {
 	return map[string]int{"write": 14, "remove": 4, "rmdir": 2, "touch": 2, "rewrite": 2, "add": 14, "rm": 4, "commit": 9, "restore": 4, "restores": 4,
@@ -137,7 +137,16 @@ func (p *Profile) genEvent(rng *rand.Rand, tr *Trace) M {
 			var s string
 			switch {
 			case hostile():
-				s = hostilePaths[rng.Intn(len(hostilePaths))]
+				// static hostile spellings plus spellings that reach real files through an absolute path or through ".."
+				dyn := []string{tr.R.Root + "/.goit/HEAD", "../root/.goit/index", tr.R.Root + "/.goit", "../root/.goit/config"}
+				if len(wtFiles) > 0 {
+					dyn = append(dyn, tr.R.Root+"/"+wtFiles[rng.Intn(len(wtFiles))], "../root/"+wtFiles[rng.Intn(len(wtFiles))])
+				}
+				if rng.Intn(3) == 0 {
+					s = dyn[rng.Intn(len(dyn))]
+				} else {
+					s = hostilePaths[rng.Intn(len(hostilePaths))]
+				}
 			case withDirs && len(bigDirs) > 0 && rng.Intn(4) == 0:
 				s = bigDirs[rng.Intn(len(bigDirs))]
 			case withDirs && len(dirs) > 0 && rng.Intn(3) == 0:
@@ -202,6 +211,15 @@ func (p *Profile) genEvent(rng *rand.Rand, tr *Trace) M {
 		return M{"ev": "rmdir", "p": EscS(dirs[rng.Intn(len(dirs))])}
 	case "mkdir":
 		return M{"ev": "mkdir", "p": EscS(fmt.Sprintf("emptyd%d", rng.Intn(3)))}
+	case "dfswap":
+		// a directory becomes a file, or a file becomes a directory with one file in it
+		if len(dirs) > 0 && rng.Intn(2) == 0 {
+			return M{"ev": "dfswap", "p": EscS(dirs[rng.Intn(len(dirs))]), "c": tr.AddContent(content()), "todir": false}
+		}
+		if len(wtFiles) > 0 {
+			return M{"ev": "dfswap", "p": EscS(wtFiles[rng.Intn(len(wtFiles))]), "c": tr.AddContent(content()), "todir": true}
+		}
+		return nil
 	case "touch":
 		if len(wtFiles) == 0 {
 			return nil
@@ -259,12 +277,12 @@ func (p *Profile) genEvent(rng *rand.Rand, tr *Trace) M {
 		if len(vals) == 0 {
 			vals = []string{"Alice", "Bob B", "a@b.example.com"}
 		}
-		key := []string{"user.name", "user.email", "core.x", "user.x"}[rng.Intn(4)]
+		key := []string{"user.name", "user.email", "core.x", "user.x", "user.name", "user.email"}[rng.Intn(6)]
 		v := vals[rng.Intn(len(vals))]
 		if key == "user.email" {
 			v = []string{"a@b.example.com", "x.y+z@mail.example.org", "q_1@ex-ample.co"}[rng.Intn(3)]
 		}
-		return M{"ev": "config", "global": rng.Intn(4) == 0, "key": EscS(key), "value": EscS(v)}
+		return M{"ev": "config", "global": rng.Intn(5) < 2, "key": EscS(key), "value": EscS(v)}
 	case "updateref":
 		b := branchName(true)
 		ref := "refs/heads/" + b
